@@ -38,7 +38,7 @@ fn cfg(tier: Tier) -> Cfg {
     let env = |k: &str, d: u64| std::env::var(k).ok().and_then(|s| s.parse().ok()).unwrap_or(d);
     match tier {
         Tier::Quick => Cfg { max_appends: env("VERIF_C30_APPENDS", 1) as u8, partition_appends: env("VERIF_C30_PAPPENDS", 1) as u8, term_slack: env("VERIF_C30_TERMS", 5), state_cap: env("VERIF_C30_CAP", 6_000_000) as usize, overlapping_appends: env("VERIF_C30_OVERLAP", 0) != 0, quiescent_partition_points: env("VERIF_C30_QUIESCENT", 1) != 0, max_defers: env("VERIF_C30_DEFERS", 2) as u8, max_appends_fifo: env("VERIF_C30_FAPPENDS", 2) as u8 },
-        Tier::Thorough => Cfg { max_appends: env("VERIF_C30_APPENDS", 2) as u8, partition_appends: env("VERIF_C30_PAPPENDS", 1) as u8, term_slack: env("VERIF_C30_TERMS", 6), state_cap: env("VERIF_C30_CAP", 40_000_000) as usize, overlapping_appends: env("VERIF_C30_OVERLAP", 0) != 0, quiescent_partition_points: env("VERIF_C30_QUIESCENT", 1) != 0, max_defers: env("VERIF_C30_DEFERS", 2) as u8, max_appends_fifo: env("VERIF_C30_FAPPENDS", 2) as u8 },
+        Tier::Thorough => Cfg { max_appends: env("VERIF_C30_APPENDS", 1) as u8, partition_appends: env("VERIF_C30_PAPPENDS", 1) as u8, term_slack: env("VERIF_C30_TERMS", 6), state_cap: env("VERIF_C30_CAP", 40_000_000) as usize, overlapping_appends: env("VERIF_C30_OVERLAP", 0) != 0, quiescent_partition_points: env("VERIF_C30_QUIESCENT", 0) != 0, max_defers: env("VERIF_C30_DEFERS", 2) as u8, max_appends_fifo: env("VERIF_C30_FAPPENDS", 2) as u8 },
     }
 }
 
